@@ -464,7 +464,18 @@ def replay(w):
         cuts = w['cuts']
     elif k == 'stft_fbf':
         N, cs = w['N'], w['chunk_size']
-        cuts = [min(cs, N - i) for i in range(0, N, cs)]
+        # the real frame_by_frame_calculation (its own slicing loop) against compute_full
+        from pydrobert.speech.compute import frame_by_frame_calculation
+        xs = rng.randn(N) + 0.1
+        try:
+            a = frame_by_frame_calculation(sc.real_stft(L, S, style, kaldi), xs, chunk_size=cs)
+        except Exception as e:
+            return {'reproduced': True, 'detail': 'frame_by_frame_calculation raised %s: %s (N=%d chunk_size=%d)' % (type(e).__name__, e, N, cs)}
+        b = sc.real_stft(L, S, style, kaldi).compute_full(xs)
+        if a.shape != b.shape:
+            return {'reproduced': True, 'detail': 'L=%d S=%d %s kaldi=%s N=%d chunk_size=%d: frame_by_frame_calculation shape %s != compute_full shape %s' % (L, S, style, kaldi, N, cs, a.shape, b.shape)}
+        d = float(np.abs(a - b).max()) if a.size else 0.0
+        return {'reproduced': d > 1e-8, 'detail': 'L=%d S=%d %s kaldi=%s N=%d chunk_size=%d: max |frame_by_frame_calculation - compute_full| = %.3g (Hamming window)' % (L, S, style, kaldi, N, cs, d)}
     else:
         # inductive-step / finalize counterexamples are abstract states; confirm through concrete histories:
         # search all 2-cut histories up to a small N for a real difference of the same configuration.
